@@ -132,7 +132,20 @@ def _load_op(impl, mid, args):
     return ','.join(str(r) for r in sorted(b.roots))
 
 
+def _eval_op(impl, mid, args):
+    """`<mid> dddmp_eval names=<n1,n2,..> <fields>`: the harness's own evaluation of the
+    node list (`file_tables`), in the format in which the Lean driver prints `evalFile`."""
+    names = [_tok(x) for x in args[0][len('names='):].split(',')] if args[0] != 'names=' else []
+    F = decode(args[1:])
+    masks, full = lib.var_masks(names)
+    tabs = file_tables(F, masks, full)
+    out = [f'{n[0]}:{tabs[n[0]]}' for n in F['nodes']]
+    out += [f'r{r}:{root_table(tabs, full, r)}' for r in F['rootids']]
+    return ';'.join(out)
+
+
 implmod.EXT_LINE_OPS['dddmp_load'] = _load_op
+implmod.EXT_LINE_OPS['dddmp_eval'] = _eval_op
 
 
 # ---------------------------------------------------------------------------
@@ -381,6 +394,8 @@ def load_and_check(ctx, s, F, expect, names, label, extra_tags=None):
     b = s.mgr(0)
     if expect is None:
         return b
+    # the specification of the theorems (`evalFile` in Lean) against the harness's evaluator
+    s._do('\t'.join(['0', 'dddmp_eval', 'names=' + ','.join(str(x) for x in names)] + encode(F)))
     bad = check_invariants(b)
     str_names = [v for v in b.vars]
     bad += canon_problems(b, sorted(str_names, key=str))
@@ -553,7 +568,7 @@ def check_C16(ctx):
                 if any(r < 0 for r in F['rootids']):
                     ctx.count('complemented-root')
                 if list(ext) != sorted(ext):
-                    ctx.count('numbering-differs-from-creation-order')
+                    ctx.count('numbering-not-in-generator-order')
                 load_and_check(ctx, s, F, expect, onames, label)
                 ctx.case((tuple(fns), tuple(order), ext, label, tuple(F['permids']), tuple(F['ids'])))
             ctx.add_session(s, SECTIONS_L3, f'generated nv={nv}')
@@ -654,5 +669,7 @@ REGISTRY = {
             'varinfo 0/1/3, .orderedvarnames/.suppvarnames present or absent, gaps in permids, extra '
             'variables, complemented and constant roots; the 4 sample files; ~35 malformed/quirk files '
             '(answers compared only). Oracle: node list of the file evaluated directly vs truth tables by '
-            'name of the returned roots (as sets), invariants + canonicity of the manager'),
+            'name of the returned roots (as sets), invariants + canonicity of the manager; the Lean '
+            'specification evalFile is printed by the driver for every node/root and compared with the '
+            'harness evaluator'),
 }
